@@ -17,6 +17,9 @@ EXPLANATION = (
     "str() with a trailing '.0' removed for number cells only (so booleans stored as 1/0 render as '1'/'0'). (O16.5) "
     "XlsxRowWriter writes str items with write_string at (line, cell) and advances cell and line. What xlrd and "
     "xlsxwriter themselves do (cell typing, float repr, file format) is not decided."
+    " Added in rounds 6 and 7: (O16.5b) a row the sheet cannot hold (text longer than 32767 characters) leaves"
+    " nothing behind and the next row starts at column 0 of the next free line; an empty item keeps its column; a"
+    " stored 0 is the text 0."
 )
 ASSUMPTIONS = ["xlrd types cells and converts dates as documented; str(float) is the shortest text denoting the value"]
 
